@@ -125,3 +125,13 @@ func TestC17_PARHistories(t *testing.T) {
 		return anyPrefix(l, "par-refused:") || l["par-use-with-conflicting-query"] && l["par-use-ok"]
 	})
 }
+
+func TestC02_CodeBinding(t *testing.T) {
+	runEngine(t, "C02", EngCfg{
+		Weights: map[string]int{"authorize": 4, "redeem": 10, "advance": 2, "refresh": 1},
+		Stores:  []string{"mem", "tx"}, JWT: []bool{false, true}, RefreshScopeModes: []int{0, 1},
+		Flows: []string{"code", "code", "code", "code token", "code id_token"}, ShortLived: true,
+	}, func(l map[string]bool) bool {
+		return l["redeem-ok-after-failed-attempts"] || (anyPrefix(l, "redeem-refused:") && l["redeem-smuggle"])
+	})
+}
